@@ -678,7 +678,12 @@ class ODataParser(Parser):
         """
         exploded = self._explode_attr(attr)
         leaf_attr = exploded.pop()
-        owner: Union[ast.Identifier, ast.Attribute] = ast.Identifier(exploded.pop(0))
+        exploded.pop(0)
+        # Reuse the leftmost identifier itself, so that its namespace is kept:
+        root: ast._Node = attr.owner
+        while isinstance(root, ast.Attribute):
+            root = root.owner
+        owner: Union[ast.Identifier, ast.Attribute] = root  # type: ignore
         for inter in exploded:
             owner = ast.Attribute(owner, inter)
 
